@@ -250,6 +250,51 @@ def mvnd_obligations(chk):
             return sep, z3.And(*gl)
         obs.append(Obligation(f"MVND[{pname}]: the sampler's factor S satisfies the Moore-Penrose equations, S S^T = pseudo-inverse of the precision (covariance of the samples)", [ep], g_pinv,
                               signature=f"mvnd:{tag}:pinv", timeout_s=300, tactic="default"))
+    # --- a supplied rank is used as given (penalty with an eigenvalue below the 1e-6 tolerance), log-pdet not supplied
+    Ks = np.diag([1.0, 0.5, 1e-7]).astype(np.float32)
+    var = z3.Real("var_small")
+    x3, mu3 = sym_array("x_small", (3,)), sym_array("mu_small", (3,))
+    ld3 = float(np.sum(np.log(np.linalg.eigvalsh(Ks.astype(np.float64)))))
+    e_s = chk.note_enc(Enc("MVND[diag(1,.5,1e-7)].from_penalty(var, rank=3 supplied)", lambda v_, x_, m_: MVND.from_penalty(m_, v_, jnp.asarray(Ks), rank=3).log_prob(x_),
+                           (1.3, jnp.zeros(3) + 0.2, jnp.zeros(3)), (sc(var), x3, mu3), domain={"var_small": (0.2, 5.0)}))
+
+    def g_small(V):
+        d_ = [x3[i] - mu3[i] for i in range(3)]
+        quad = sum(V.c(Ks[i, i]) * d_[i] * d_[i] for i in range(3)) / var        # V.c: exact binary value of the float32 constant
+        form = -quad / 2 - (3 * V.c(LOG2PI) - (V.c(np.float32(ld3)) - 3 * V.log(var))) / 2
+        d = cells(V.out)[0] - form
+        tol = z3.RealVal("1/10000")
+        return [var > 0], z3.And(d <= tol, d >= -tol)
+    obs.append(Obligation("MVND: from_penalty uses a supplied rank as given (penalty with an eigenvalue below the tolerance; log-pdet derived from the top `rank` eigenvalues)", [e_s], g_small,
+                          signature="mvnd:supplied-rank", expand_logs=True, timeout_s=120))
+    # --- a non-default tolerance governs density AND sampler alike
+    K2 = np.diag([2.0, 1e-4]).astype(np.float32)
+    vt = z3.Real("var_tol")
+    x2, mu2 = sym_array("x_tol", (2,)), sym_array("mu_tol", (2,))
+    keyt = jax.random.PRNGKey(19)
+    from ..jx2smt import root_key
+    e_t = chk.note_enc(Enc("MVND(prec=diag(2,1e-4)/var, tol=1e-2).log_prob", lambda v_, x_, m_: MVND(m_, jnp.asarray(K2) / v_, tol=1e-2).log_prob(x_), (1.3, jnp.zeros(2) + 0.2, jnp.zeros(2)),
+                           (sc(vt), x2, mu2), domain={"var_tol": (0.5, 2.0)}))
+    e_ts = chk.note_enc(Enc("MVND(prec=diag(2,1e-4)/var, tol=1e-2).sample", lambda k_, v_, m_: MVND(m_, jnp.asarray(K2) / v_, tol=1e-2).sample(seed=k_) - m_, (keyt, 1.3, jnp.zeros(2)),
+                            (root_key("k"), sc(vt), mu2), key_roots={"k": keyt}, domain={"var_tol": (0.5, 2.0)}))
+    rng_t = [vt > z3.RealVal("1/50"), vt < 100]
+
+    def g_tol(V):
+        d_ = [x2[i] - mu2[i] for i in range(2)]
+        quad = (2 * d_[0] * d_[0] + V.c(K2[1, 1]) * d_[1] * d_[1]) / vt
+        form = -quad / 2 - (V.c(LOG2PI) - (V.log(V.c(np.float32(2.0))) - V.log(vt))) / 2
+        d = cells(V.out)[0] - form
+        tol = z3.RealVal("1/10000")
+        return rng_t, z3.And(d <= tol, d >= -tol)
+    obs.append(Obligation("MVND(tol=1e-2): rank and log-pdet count only eigenvalues above the user's tolerance", [e_t], g_tol, signature="mvnd:tol-density", expand_logs=True, timeout_s=120))
+
+    def g_tol_s(V):
+        s_ = cells(V.out)
+        zs = [c for dr in V.I.draws for c in cells(dr["out"])]
+        tol = z3.RealVal("1/1000")
+        return rng_t + [z3.And(zz <= 10, zz >= -10) for zz in zs], z3.And(s_[1] <= tol, s_[1] >= -tol)
+    obs.append(Obligation("MVND(tol=1e-2): samples have no component along a direction the user's tolerance declares null (sampler and density use the same tolerance)", [e_ts], g_tol_s,
+                          signature="mvnd:tol-sample", timeout_s=120))
     # general symbolic precision (n = 2): null-space invariance over the eigh contract
     n = 2
     P = np.empty((n, n), dtype=object)
